@@ -274,7 +274,10 @@ def main():
         hprops = set(h.props) | {'C05'}
         obl = res['obligations']
         # vacuity guard (DESIGN 3.2 step 6a)
-        unw = [o for o in obl if o['class'] == 'unwinding' and o['status'] != 'SUCCESS']
+        # (cbmc reports obligations behind a definite failure - e.g. after a division by zero - as UNKNOWN; an UNKNOWN unwinding assertion next to a FAILURE is
+        # such a consequence, not a bound that is too small)
+        any_failure = any(o['status'] == 'FAILURE' for o in obl)
+        unw = [o for o in obl if o['class'] == 'unwinding' and (o['status'] == 'FAILURE' or (o['status'] != 'SUCCESS' and not any_failure))]
         if unw:
             broken.append('%s/%s: unwinding assertion failed (%s): bound too small, result would be vacuous' % (mod.NAME, h.name, unw[0]['name']))
             continue
